@@ -956,7 +956,7 @@ func c20Gen(g *hx.Gen) {
 	for _, p := range []int{1 << 31, -(1 << 31), 1<<62 - 1, -(1 << 62)} {
 		g.Casef("cv %d", p)
 	}
-	n := g.Scale(12000, 1000000)
+	n := g.Scale(40000, 1000000)
 	deepEvery := g.Scale(150, 400)
 	for k := 0; k < n && !g.Done(); k++ {
 		if k%deepEvery == deepEvery-1 {
